@@ -6,7 +6,7 @@
    real tuner constructor against Discover.v): PARTIAL. *)
 From stdpp Require Import gmap list.
 From Coq Require Import ZArith.
-From KT Require Import Space Discover SpaceProofs.
+From KT Require Import Space Discover SpaceProofs DiscoverProofs.
 
 Theorem C13_declare_known_active : ∀ s h v,
   exists_ s (h_name h) (h_conds h) = true → is_active s h = true → s_values s !! h_name h = Some v → retrieve s h = Ok (s, Some v).
@@ -46,7 +46,29 @@ Theorem C13_new_entries : ∀ allow tune osp hp,
   ((allow = true ∨ new = []) → tune = true → update_space allow tune osp hp = UsOk (merge_list osp new)).
 Proof. exact update_space_spec. Qed.
 
+(* (c) _populate_initial_space, partial correctness, for EVERY build program: when discovery returns (ActDone after b builds),
+   every conditional scope opened in any of the builds - active or not - was active in at least one of them, and (with
+   allow_new_entries = tune_new_entries = True) everything any build registered is in the oracle's search space.
+   Termination is not proved: the correspondence compares the number of builds on generated programs. *)
+Theorem C13_discovery_partial_correctness : ∀ (draw : nat → hp → value) (build : list stmt) (fuel : nat) (osp osp' : hps) (k' b : nat),
+  s_conds osp = [] →
+  populate_initial draw build true true fuel osp = ActDone osp' k' b →
+  ∃ hist : list hps, length hist = b ∧
+    (∀ h cs, h ∈ hist → cs ∈ s_active h ++ s_inactive h → ∃ h', h' ∈ hist ∧ scope_in cs (s_active h') = true) ∧
+    (∀ h e, h ∈ hist → e ∈ s_space h → exists_ osp' (h_name e) (h_conds e) = true).
+Proof. exact discovery_partial_correctness. Qed.
+
+(* non-vacuity: `a = Choice(x, y)`; `if a == y: b = Int(...)` is discovered in two builds *)
+Example C13_discovery_example :
+  match populate_initial (λ _ h, h_default h) [SDecl 1 (VStr 1) 1; SCond false 1 [VStr 2] [SDecl 2 (VInt 0) 2]] true true 10 empty_hps with
+  | ActDone osp _ b => (b, map h_name (s_space osp)) = (2, [[1%positive]; [2%positive]])
+  | _ => False
+  end.
+Proof. vm_compute. reflexivity. Qed.
+
+
 Print Assumptions C13_declare_unknown.
 Print Assumptions C13_get.
 Print Assumptions C13_parents_first.
 Print Assumptions C13_new_entries.
+Print Assumptions C13_discovery_partial_correctness.
